@@ -86,11 +86,11 @@ theorem inv_unsetArg_core {ctx : Ctx} {g g' : Graph} {inst arg i : Nat} {nd : No
   -- node classes of the changed node
   have hA : nd'.isAlias = nd.isAlias := by simp [nd', Node.isAlias, hk]
   have hI : nd'.isInst = nd.isInst := by simp [nd', Node.isInst, hk]
-  have hD : nd'.isDef = nd.isDef := by simp [nd', Node.isDef, hk]
+  have hD : nd'.defTy = nd.defTy := by simp [nd', Node.defTy, hk]
   have hsatNew : nd'.sat = sat.erase i := by simp [nd', Node.sat]
   have hsatOld : nd.sat = sat := by simp [Node.sat, hk]
   have fwd : ∀ m x, g.node? m = some x → ∃ x', g'.node? m = some x' ∧ x'.pkg = x.pkg ∧ x'.item = x.item ∧
-      x'.isAlias = x.isAlias ∧ x'.isInst = x.isInst ∧ x'.isDef = x.isDef ∧ x'.exp = x.exp ∧
+      x'.isAlias = x.isAlias ∧ x'.isInst = x.isInst ∧ x'.defTy = x.defTy ∧ x'.exp = x.exp ∧
       (m ≠ inst → x' = x) ∧ (m = inst → x = nd ∧ x' = nd') := by
     intro m x hx
     by_cases hm' : m = inst
